@@ -9,4 +9,9 @@ let table : (string * (z list list list -> z list list)) list = [
   ("pio_oracle", e_pio_oracle);
   ("xor_model", e_xor_model);
   ("c18_model", e_c18_model);
+  ("nat_model", e_nat_model);
+  ("nat_oracle", e_nat_oracle);
+  ("dl_model", e_dl_model);
+  ("loss_model", e_loss_model);
+  ("c13_model", e_c13_model);
 ]
